@@ -286,8 +286,90 @@ def tag_permutations(ctx, count):
                             finding=fid, detail={"orders": rq["tag_orders"][:6], "results": res["results"][:6]})
 
 
+def observable(v):
+    """what of (index, assembly) can reach an output file: a scaffold without rows (record without residues) is dropped — neither the remapper
+    (it walks fragments) nor the writers produce anything for it, and the AGP cache has no line for it; the .fai row is compared"""
+    return {"index": v["index"], "scaffolds": [s for s in v["scaffolds"] if s["rows"]]}
+
+
+def coldwarm(ctx, count):
+    """index cache freshly built vs loaded from disk, in process: FastaIndex.auto_load() twice on the same file (cold, then warm) must give the
+    same index and the same assembly; both are also compared with the Lean composition (indexFasta, then faiRow/loadIndex and formatAgp/parseAgp)."""
+    import fasta_lib as F2
+    from pathlib import Path
+    from tola.fasta.index import FastaIndex
+    out, rng = ctx.out, ctx.rng
+    reqs, meta = [], []
+
+    def view(fi):
+        return {"index": [[n, i.length, i.file_offset, i.residues_per_line, i.max_line_length] for n, i in fi.index.items()],
+                "scaffolds": [{"name": s.name, "rows": [conv.strip_oids(conv.from_real_row(r)) for r in s.rows]} for s in fi.assembly.scaffolds]}
+    with F.Scratch() as sc:
+        for i in range(count):
+            recs = F.rand_records(rng, nrec=rng.randint(1, 4), maxlen=120, allow_empty=(rng.random() < 0.15))
+            odd = rng.random()
+            for k, r in enumerate(recs):
+                if odd < 0.35:
+                    # names as bytes.split() leaves them: anything but ASCII white space (separators 0x1C-0x1F, '#', '|', ':' …)
+                    r["name"] = rng.choice(["a\x1cb", "x\x1f", "#c", "c#1", "|q", "s:1-5", "=", "N"]) + str(k)
+            w = rng.choice([7, 60, 60, 200])
+            le = rng.choice([b"\n", b"\n", b"\r\n"])
+            data = F.render(recs, w, le=le, final_newline=rng.random() < 0.85)
+            bs = rng.choice([1, 7, 61, 250000])
+            p = sc.path / f"cw{i}.fa"
+            p.write_bytes(data)
+            res = {}
+            try:
+                cold = FastaIndex(p, buffer_size=bs); cold.auto_load(); res["cold"] = view(cold)
+                warm = FastaIndex(p, buffer_size=bs)
+                res["used_cache"] = bool(warm.check_for_index_files())
+                if not res["used_cache"]:
+                    # same timestamp tick as the FASTA: make the cache strictly newer, as any later run would see it
+                    import os
+                    t = p.stat().st_mtime + 5
+                    for q in (warm.fai_file, warm.agp_file):
+                        os.utime(q, (t, t))
+                warm = FastaIndex(p, buffer_size=bs)
+                warm.auto_load(); res["warm"] = view(warm)
+            except Exception as e:
+                res["err"] = conv.errkind(e) if "cold" in res else "cold:" + conv.errkind(e)
+            names = [r["name"] for r in recs]
+            inp = {"scenario": "cold-warm", "fasta": data.decode("latin-1")[:600], "bs": bs, "names": names}
+            key = ("coldwarm", len(recs), odd < 0.35, any(len(r["seq"]) == 0 for r in recs), "err" in res)
+            fid = None
+            if any(n.startswith("#") for n in names):
+                fid = "F18-record-name-starting-with-hash"
+            meta.append((inp, res, key, fid))
+            reqs.append({"id": 0, "kind": "warm", "file": list(data), "bs": bs, "path": str(p.absolute())})
+    ms = ctx.driver.batch(reqs) if ctx.driver else [None] * len(reqs)
+    for (inp, res, key, fid), m in zip(meta, ms):
+        if m is not None:
+            if "ok" in m:
+                mv = {"cold": {"index": m["ok"]["cold_index"], "scaffolds": [{"name": x["name"], "rows": [conv.strip_oids(r) for r in x["rows"]]} for x in m["ok"]["cold_scaffolds"]]},
+                      "warm": {"index": m["ok"]["warm_index"], "scaffolds": [{"name": x["name"], "rows": [conv.strip_oids(r) for r in x["rows"]]} for x in m["ok"]["warm_scaffolds"]]}}
+                rv = {k: res[k] for k in ("cold", "warm") if k in res}
+                if "err" in res:
+                    rv["err"] = res["err"]
+            else:
+                mv = {"err": m["err"]}
+                rv = {"err": (res.get("err") or "none").replace("cold:", "")}
+            out.compare("cold-warm", inp, rv, mv, key)
+        else:
+            out.case("cold-warm", inp, key)
+        if "err" in res and not res["err"].startswith("cold:"):
+            out.oracle_fail("cold-warm", inp, f"the cold run succeeds but the warm run (cache loaded from disk) fails: {res['err']}")
+        elif "warm" in res and observable(res["warm"]) != observable(res["cold"]):
+            # the recorded finding is exactly: the warm assembly lacks the scaffolds named '#…' and nothing else differs
+            oc, ow = observable(res["cold"]), observable(res["warm"])
+            if not (fid and ow["index"] == oc["index"] and ow["scaffolds"] == [x for x in oc["scaffolds"] if not x["name"].startswith("#")]):
+                fid = None
+            out.oracle_fail("cold-warm", inp, "index / assembly loaded from the cache differ from the freshly built ones", finding=fid,
+                            detail={"cold": res["cold"], "warm": res["warm"]})
+
+
 def run(ctx):
     tag_permutations(ctx, 1500 if ctx.thorough else 300)
+    coldwarm(ctx, 600 if ctx.thorough else 120)
     tag = itertools.count()
     with F.Scratch() as sc:
         for _ in range(10 if ctx.thorough else 4):
